@@ -330,7 +330,7 @@ func randomizerSourceRule(P *Program, R *Report) {
 		ok := false
 		for _, s := range sinksOfDeep(fn) {
 			if s.key == `"secretkey"` {
-				if g := genCallOf(s.val); g != nil && calleeName(g) == "common.RandomBigInt" {
+				if g := genCallOf(s.val); g != nil && calleeIs(g, "common.RandomBigInt") {
 					a, _ := affineOf(g.Call.Args[0])
 					ok = a.String() == "LsCommit"
 				}
@@ -342,7 +342,7 @@ func randomizerSourceRule(P *Program, R *Report) {
 		ok := false
 		for _, s := range sinksOf(fn) {
 			if s.key == `"secretkey"` {
-				if g := genCallOf(s.val); g != nil && calleeName(g) == "common.RandomBigInt" {
+				if g := genCallOf(s.val); g != nil && calleeIs(g, "common.RandomBigInt") {
 					a, _ := affineOf(g.Call.Args[0])
 					ok = a.String() == "LmCommit@1024"
 				}
@@ -353,7 +353,7 @@ func randomizerSourceRule(P *Program, R *Report) {
 	if fn := mustFunc(P, R, rule, "gabi.NewKeyshareCommitments"); fn != nil {
 		ok := false
 		for _, r := range returnsOf(fn) {
-			if g := genCallOf(r.Results[0]); g != nil && calleeName(g) == "common.RandomBigInt" && g.Parent() == fn {
+			if g := genCallOf(r.Results[0]); g != nil && calleeIs(g, "common.RandomBigInt") && g.Parent() == fn {
 				ok = true
 			}
 		}
@@ -430,7 +430,7 @@ func attrRandomizerWritesRule(P *Program, R *Report) {
 		ok := false
 		for _, s := range sinksOf(fn) {
 			if s.target == nbD+".nonrevBuilder" {
-				ok = desc(s.val) == "call:gabi.(*Credential).nonrevConsumeBuilder(<gabi.Credential>)#0"
+				ok = desc(s.val) == "call:gabi.nonrevConsumeBuilder(<gabi.Credential>)#0"
 			}
 		}
 		R.decide(rule, kCredBuilder+":nonrevBuilder-source", "the builder's non-revocation part is obtained through nonrevConsumeBuilder in this constructor call", ok, "", P.Pos(fn.Pos()))
@@ -657,7 +657,7 @@ func chanOpsOn(P *Program, match func(chDesc string) bool) []chanOp {
 func cacheProtocolRule(P *Program, R *Report) {
 	rule := "C07.d"
 	ops := chanOpsOn(P, func(d string) bool {
-		return strings.HasSuffix(d, ".nonrevCache") || strings.HasPrefix(d, "call:gabi.(*Credential).nonrevCacheChan(")
+		return strings.HasSuffix(d, ".nonrevCache") || strings.HasPrefix(d, "call:gabi.nonrevCacheChan(")
 	})
 	per := map[string]map[string]int{}
 	for _, o := range ops {
@@ -668,7 +668,7 @@ func cacheProtocolRule(P *Program, R *Report) {
 		per[k][o.kind]++
 		R.seen(k)
 	}
-	const consume, prepare = "gabi.(*Credential).nonrevConsumeBuilder", "gabi.(*Credential).NonrevPrepareCache"
+	const consume, prepare = "gabi.nonrevConsumeBuilder", "gabi.(*Credential).NonrevPrepareCache"
 	var others []string
 	for k, m := range per {
 		if k != consume && k != prepare {
@@ -968,7 +968,7 @@ func memoPerObjectRule(P *Program, R *Report) {
 
 func revocationRandomizersRule(P *Program, R *Report) {
 	rule := "C07.g"
-	const key = "revocation.(*proofStructure).commitmentsFromSecrets"
+	const key = "revocation.commitmentsFromSecrets"
 	fn := mustFunc(P, R, rule, key)
 	if fn == nil {
 		return
@@ -993,7 +993,7 @@ func revocationRandomizersRule(P *Program, R *Report) {
 			continue
 		}
 		g := genCallOf(s.val)
-		if g == nil || calleeName(g) != "common.FastRandomBigInt" {
+		if g == nil || !calleeIs(g, "common.FastRandomBigInt") {
 			R.bad(rule, c, "randomiser is a fresh FastRandomBigInt", "value "+desc(s.val), P.Pos(s.ins.Pos()))
 			continue
 		}
@@ -1016,7 +1016,7 @@ func revocationRandomizersRule(P *Program, R *Report) {
 	for _, s := range sinksOf(fn) {
 		if strings.HasSuffix(s.target, ".secrets") && (s.key == `"epsilon"` || s.key == `"zeta"`) {
 			g := genCallOf(s.val)
-			ok := g != nil && calleeName(g) == "common.FastRandomBigInt"
+			ok := g != nil && calleeIs(g, "common.FastRandomBigInt")
 			if ok {
 				t := be.at(g)
 				ok = len(t) == 1 && t[0].equal(nDiv4)
